@@ -872,3 +872,70 @@ def inv_endpoints(lc):
 def verify_range_endpoints(run):
     run.verify('_Interval.range_endpoints', cls='TimeInterval', invariants={'for (start, stop) in self._interval': inv_endpoints},
                calls={'set': lambda ex, e, st: [(st, PSet(K(Val, BoolVal(False)), 'val'))]})
+
+
+# ---- persistence of TimeDate / TimeSpan: the saved state is the exported configuration, restoring reconfigures with it ------------------------
+export3 = Function('export3', Val, Val, Val, Val)          # TimeDate._export3(times, dates, weekdays) (C13: as_list / sorted)
+
+
+def export3_call(ex, e, st):
+    outs = []
+    for s1, vals in ex.evs(e.args, st):
+        outs.append((s1, ZV('val', export3(*[to_val(v, s1) for v in vals]))))
+    return outs
+
+
+@contract('TimeDate.get_state', qual=QT + 'TimeDate.get_state', modifies=(), self_cls='TimeDate')
+def _td_get_state(c):
+    me = c.z('self')
+    c.ensures('the_exported_configuration', c.rv == export3(c.pre('_times', me), c.pre('_dates', me), c.pre('_weekdays', me)))
+
+
+def reconfig_iface(effects):
+    def h(ex, e, st): return _reconfig_iface(ex, e, st, effects)
+    return h
+
+
+def _reconfig_iface(ex, e, st, effects):
+    """self._event_reconfig(**value) / (span=value): contract of the reconfiguration handler (verified above)"""
+    me = as_kind(st.env['self'], Ref(), st)
+    outs = []
+    for s1, kw in ex.evs([k.value for k in e.keywords], st):
+        s1 = s1.copy()
+        if len(e.keywords) == 1 and e.keywords[0].arg is None:
+            data = ex.as_dict(s1, kw[0])                       # **value
+        else:
+            data = EMPTY_DICT
+            for k, v in zip(e.keywords, kw): data = Store(data, StringVal(k.arg), Opt.Some(to_val(v, s1)))
+        ex.emit(s1, rec('_event_reconfig', Val.Obj(me), kw=data))
+        for f in effects: s1.havoc_field(f)
+        outs.append((s1, P_NONE))
+        bad = s1.copy(); bad.label('_event_reconfig:raises')
+        outs.append((bad, Raise(PExc('OtherException', val=Val.Obj(fresh('exc', IntSort())), where='callee'))))
+    return outs
+
+
+@contract('TimeDate.init_from_value', qual=QT + 'TimeDate.init_from_value', modifies=tuple(dict.fromkeys(TD_EFFECTS)), self_cls='TimeDate')
+def _td_init_from_value(c):
+    me, v = c.z('self'), c.v('value')
+    c.requires('a_mapping', Val.is_D(v))
+    c.raises('OtherException', unchanged=False, label='bad_configuration')
+    if c.verifying:
+        c.expect_trace(lambda k: rec('_event_reconfig', Val.Obj(me), kw=dict_c(Val.dk(v))), 1)
+
+
+@contract('TimeSpan.init_from_value', qual=QT + 'TimeSpan.init_from_value', modifies=tuple(dict.fromkeys(TS_EFFECTS)), self_cls='TimeSpan')
+def _ts_init_from_value(c):
+    me, v = c.z('self'), c.v('value')
+    c.raises('OtherException', unchanged=False, label='bad_configuration')
+    if c.verifying:
+        c.expect_trace(lambda k: rec('_event_reconfig', Val.Obj(me), kw=Store(EMPTY_DICT, StringVal('span'), Opt.Some(v))), 1)
+
+
+def verify_td_persistence(run):
+    from edzed.blocklib import timedate as TD
+    run.verify('TimeDate.get_state', cls='TimeDate', calls={'self._export3': export3_call})
+    run.verify('TimeDate.init_from_value', cls='TimeDate', calls={'self._event_reconfig': reconfig_iface(TD_EFFECTS)})
+    run.verify('TimeSpan.init_from_value', cls='TimeSpan', calls={'self._event_reconfig': reconfig_iface(TS_EFFECTS)})
+    run.scan('restore_state_is_init_from_value', TD.TimeDate._restore_state is TD.TimeDate.init_from_value and TD.TimeSpan._restore_state is TD.TimeSpan.init_from_value,
+             'TimeDate/TimeSpan._restore_state are init_from_value: restoring a saved state is a reconfiguration with the saved configuration')
